@@ -1,4 +1,4 @@
 """Names available to contract files."""
 from .types import Int, Bool, Real, Str, NoneT, Atom, Opt, Tup, Rec, List, Dict, Set, Obj, Card
-from .registry import schema, contract, specfun, lemma, trace_events, extconst, box, spectype, SCHEMAS, CONTRACTS, SPECFUNS, LEMMAS
+from .registry import schema, contract, specfun, lemma, trace_events, extconst, box, spectype, regex, SCHEMAS, CONTRACTS, SPECFUNS, LEMMAS
 def display(*tys): return ("display", list(tys))
